@@ -81,6 +81,7 @@ package soyhtml
 //@   ghost anyCancel bool = false
 //@   ghost writes int = 0
 //@   at call (*state).eval#0 after set mode = s.autoescape
+//@   at call (*state).walk#* forbid[the-print-command-stays-the-current-node-while-its-expression-is-evaluated;C19] false
 //@   at call soyhtml.(*state).evalPrint$1#0 after set anyCancel = anyCancel || directive.CancelAutoescape
 //@   at call soyhtml.htmlEscapeString#0 assert[escaped-only-if-on-and-not-cancelled] mode != ast.AutoescapeOff && !anyCancel && writes == 0
 //@   at call soyhtml.htmlEscapeString#0 set writes = writes + 1
@@ -604,9 +605,13 @@ package soyhtml
 
 // The builtin functions and directives (the default contents of the registries)
 // respect the same frame that calls through the registries are assumed to have.
+// C02: the position of a loop is looked up under the loop variable's name plus
+// a suffix that starts with '#': no template variable can have such a name, so
+// {let $x__index: ...} cannot replace the bookkeeping of a loop over $x.
 //@ func funcIndex
 //@   like renderFn
 //@   nosafety
+//@   at call (scope).lookup#0 assert[loop-position-kept-under-a-name-no-variable-can-have;C02] loopIndexSuffix[0] == 35 && loopLastIndexSuffix[0] == 35 && len(arg1) == len(key) + len(loopIndexSuffix)
 //@ func funcIsFirst
 //@   like renderFn
 //@   nosafety
